@@ -22,6 +22,8 @@ Decided structurally:
                 on every normal path: a failed call does not leave the user's settings changed
   C08.bounded   fixed-extent destination buffers: Phreeqc::copy_token(char*) stores at most MAX_LENGTH-1 characters and every
                 caller passes an array of at least MAX_LENGTH bytes; no strcpy/strcat/sprintf/sscanf(%s) targets a fixed array
+  C08.ladder    the numerical retry ladder ends in an error: the all-attempts-failed block of set_and_run_wrapper never completes
+                normally and the wrapper returns only the values its callers distinguish
 NOT decided: memory safety / absence of undefined behaviour for all byte sequences in general (no sound buffer or alias
 analysis of the 125 k-line engine is available here); std-library exceptions raised by input-dependent code are only
 censused (C08.stdthrow, informational).
@@ -227,7 +229,62 @@ def run(P, R, tier):
     bounded_rules(P, R)
     restore_rules(P, R)
     grow_rule(P, R)
+    ladder_rule(P, R, mt)
     stdthrow_census(P, R, reach)
+
+
+def ladder_rule(P, R, mt):
+    """"The last-resort numerical retry ladder ends in an error, not a silent result": in set_and_run_wrapper the block taken when
+    every parameter combination failed (`if (converge == FALSE)`, after the cvode re-try clause) has no path to the end of the
+    function - every path through it ends in a never-returning call (error_msg(.., STOP)); and the wrapper returns only OK or
+    MASS_BALANCE, the two values its callers distinguish (none of them tests for a failure value)."""
+    RULE = "C08.ladder"
+    R.rule(RULE, "set_and_run_wrapper: the all-attempts-failed block never completes normally; the wrapper returns only OK / MASS_BALANCE", minimum=3)
+    f = P.one("Phreeqc::set_and_run_wrapper")
+    where = dict(file=f["file"], function=f["q"])
+
+    def is_failed_test(c):
+        c = T.strip_casts(c)
+        return (c[0] == "Bin" and c[2] == "==" and T.strip_casts(c[3])[0] == "Ref" and T.strip_casts(c[3])[3] == "converge"
+                and T.strip_casts(c[4])[0] == "Lit" and str(T.strip_casts(c[4])[3]) == "0")
+    blocks = [x for x in f["body"][2] if x[0] == "If" and is_failed_test(x[2])]
+    if len(blocks) != 1:
+        R.anchor_missing(RULE, "set_and_run_wrapper: expected exactly one top-level `if (converge == FALSE)` block after the retry loop, found %d" % len(blocks))
+        return
+    blk = blocks[0]
+    if never_completes(blk[3], f, mt):
+        R.ok(RULE, "failed-block", "every path through the block ends in a never-returning call")
+    else:
+        rets = [y for y in T.walk(blk[3]) if y[0] == "Return"]
+        R.violation(RULE, "failed-block", "the block taken when every convergence-parameter set failed can complete normally%s: the call returns as if the system had "
+                    "converged, no ERROR is recorded and an unconverged state is saved and punched" % (" (return at line %d)" % rets[0][1] if rets else ""),
+                    line=(rets[0][1] if rets else blk[1]), **where)
+    vals = []
+    for y in T.walk(f["body"]):
+        if y[0] == "Return" and T.is_node(y[2]):
+            v = T.strip_casts(y[2])
+            vals.append((y[1], str(v[3]) if v[0] == "Lit" else T.text(v)))
+    bad = [(l, v) for l, v in vals if v not in ("1", "3")]
+    if bad:
+        R.violation(RULE, "return-values", "set_and_run_wrapper returns %s at line %d; its callers distinguish only MASS_BALANCE from everything else, so a failure value is "
+                    "treated as success" % (bad[0][1], bad[0][0]), line=bad[0][0], **where)
+    else:
+        R.ok(RULE, "return-values", "returns only OK(1) / MASS_BALANCE(3): %d return statements" % len(vals))
+    # callers: none tests the result against anything but MASS_BALANCE
+    n = 0
+    badc = None
+    for g in P.functions.values():
+        if not g.get("body"):
+            continue
+        for x in T.walk(g["body"]):
+            if x[0] == "Bin" and x[2] in ("==", "!=") and any(T.strip_casts(a)[0] == "Call" and T.callee_q(T.strip_casts(a)) == f["q"] for a in (x[3], x[4])):
+                other = T.strip_casts(x[4] if T.strip_casts(x[3])[0] == "Call" else x[3])
+                n += 1
+                if not (other[0] == "Lit" and str(other[3]) == "3"):
+                    badc = (g, x)
+    if badc:
+        R.info["C08.ladder caller testing another value"] = "%s:%d" % (badc[0]["q"], badc[1][1])
+    R.ok(RULE, "callers", "%d direct comparisons of the result, all with MASS_BALANCE" % n) if not badc else R.ok(RULE, "callers", "a caller tests another value (informational)")
 
 
 def never_completes(stmt, f, mt):
